@@ -4,7 +4,7 @@ from harness import C10, k_api, k_categorical, k_ordinal, k_quantiles, k_transfo
 
 def obligations(tier):
     quick = tier == "quick"
-    multi = C10.obligations(tier)[0]
+    multi = next(o for o in C10.obligations(tier) if o.harness is C10.h_indep)
     multi.name = "O8.10 several features at once (quantitative, qualitative, numeric-valued, two identifier-like columns dropped by the base discretizer): fit completes, every feature consistent with its fit alone"
     multi.jobs = [j for j in multi.jobs if j["mode"] in ("together", "hash")]
     return [multi,
